@@ -30,12 +30,28 @@ Definition b2n (b : bool) : N := if b then 1%N else 0%N.
 Definition has_bind (p : program) (ids : list N) : bool :=
   existsb (fun id => match find_occ id (occs_of p) with
                      | Some (o, _) => role_eqb (o_role o) Bind | None => false end) ids.
-(* program, occurrence id, identifier, observed reference ids (sorted) ->
-   [identifier inside the C03 fragment; the variable has a binding; observed = specification] *)
-Definition chk_refs (c : program * N * N * list N) : list N :=
-  let '(p, i, x, obs) := c in
+Definition owner_of (oc : occ * chain) : N := owner_sid (snd oc) (fst oc).
+(* some use of the variable precedes every binding of it (late-bound / loop-carried) *)
+Definition late_bound (p : program) (x : N) : bool :=
+  let all := occs_of p in
+  existsb (fun u => N.eqb (o_name (fst u)) x && role_eqb (o_role (fst u)) Use && negb (N.eqb (owner_of u) 0) &&
+                    existsb (fun b => N.eqb (o_name (fst b)) x && role_eqb (o_role (fst b)) Bind && N.eqb (owner_of b) (owner_of u)) all &&
+                    negb (existsb (fun b => N.eqb (o_name (fst b)) x && role_eqb (o_role (fst b)) Bind &&
+                                            N.eqb (owner_of b) (owner_of u) && N.ltb (o_id (fst b)) (o_id (fst u))) all)) all.
+(* a parameter that is assigned again in the body of its function *)
+Definition param_rebound (p : program) (x : N) (params : list N) : bool :=
+  let all := occs_of p in
+  existsb (fun a => N.eqb (o_name (fst a)) x && memN (o_id (fst a)) params &&
+                    existsb (fun b => N.eqb (o_name (fst b)) x && role_eqb (o_role (fst b)) Bind &&
+                                      negb (memN (o_id (fst b)) params) && N.eqb (owner_of b) (owner_of a)) all) all.
+(* program, parameter ids, occurrence id, identifier, observed reference ids (sorted) ->
+   [identifier inside the C03 fragment; the variable has a binding; observed = specification;
+    late-bound use of the identifier; rebound parameter] *)
+Definition chk_refs (c : program * list N * N * N * list N) : list N :=
+  let '(p, params, i, x, obs) := c in
   let spec := refs_ids p i in
-  [b2n (name_in_fragment p x); b2n (has_bind p spec); b2n (nl_eqb (sortN spec) obs)].
+  [b2n (name_in_fragment p x); b2n (has_bind p spec); b2n (nl_eqb (sortN spec) obs);
+   b2n (late_bound p x); b2n (param_rebound p x params)].
 Definition mkleaf (pv : str * str * bool) : leaf :=
   let '(p, v, s) := pv in {| l_prefix := p; l_value := v; l_sel := s |}.
 (* leaves (prefix, value, selected), new name, observed new text, old name *)
@@ -71,7 +87,8 @@ def _task(prog):
         return dict(skip=repr(e))
     trace = run_trace(src)
     pos2occ = {(o.line, o.col): o for o in p.occs}
-    out = dict(src=src, gprog=c03.g_prog(p.scopes[0]), occs=[], names={})
+    out = dict(src=src, gprog=c03.g_prog(p.scopes[0]), occs=[], names={},
+               params=[o.oid for o in p.occs if o.how == 'param'])
     script = jedi.Script(src)
     cache = {}
     backs = []
@@ -173,6 +190,7 @@ def run(ctx):
         name = 'p%d' % pi
         pi += 1
         defs.append('Definition %s : program := %s.' % (name, r['gprog']))
+        defs.append('Definition %s_params : list N := %s.' % (name, g_list(r['params'], g_N, 'N')))
         for rec in r['occs']:
             stats['occurrences'] += 1
             where = dict(source=r['src'], occurrence=rec['id'], name=rec['name'])
@@ -181,7 +199,7 @@ def run(ctx):
                               'get_references raised')
                 continue
             ctx.count('refs', (r['src'], rec['id']), nontrivial=len(rec['refs']) >= 2)
-            rcases.append('(%s, %d%%N, %d%%N, %s)' % (name, rec['id'], c03.IDS[rec['name']], g_list(rec['refs'], g_N, 'N')))
+            rcases.append('(%s, %s_params, %d%%N, %d%%N, %s)' % (name, name, rec['id'], c03.IDS[rec['name']], g_list(rec['refs'], g_N, 'N')))
             rmeta.append(dict(refs=rec['refs'], prog=name, partition=rec.get('partition'), **where))
             if 'rename_exc' in rec:
                 ctx.deviation(dict(stream='text', exc=rec['rename_exc']['exc'], site=rec['rename_exc']['site']),
@@ -201,6 +219,11 @@ def run(ctx):
     outside = {i for i, f in enumerate(flags) if not f[0]}
     unbound = {i for i, f in enumerate(flags) if not f[1]}
     failset = {i for i, f in enumerate(flags) if not f[2]}
+
+    def reason(i):
+        f = flags[i]
+        return ('outside-c03-fragment' if not f[0] else 'late-bound-use' if f[3] else
+                'parameter-rebound' if f[4] else 'none')
     stats['occurrences_of_unbound_names'] = len(unbound)
     n_out = 0
     for i, m in enumerate(rmeta):
@@ -210,11 +233,11 @@ def run(ctx):
             continue   # a name that is bound nowhere has no definition to collect references for
         if i in failset:
             spec = None
-            ctx.deviation(dict(stream='refs', cls='refs-differ-from-python-variable', in_c03_fragment=infrag),
+            ctx.deviation(dict(stream='refs', cls='refs-differ-from-python-variable', reason=reason(m['idx'] if 'idx' in m else i)),
                           dict(source=m['source'], occurrence=m['occurrence'], name=m['name'], reported=m['refs'], spec=spec),
                           'get_references from occurrence #%d reports %r, which is not the set of occurrences of that variable' % (m['occurrence'], m['refs']))
         if m['partition']:
-            ctx.deviation(dict(stream='partition', cls='not-a-partition', in_c03_fragment=infrag),
+            ctx.deviation(dict(stream='partition', cls='not-a-partition', reason=reason(m['idx'] if 'idx' in m else i)),
                           dict(source=m['source'], occurrence=m['occurrence'], reported=m['refs'], **m['partition']),
                           'get_references from #%d gives %r but from its member #%d gives %r' % (
                               m['occurrence'], m['refs'], m['partition']['member'], m['partition']['other']))
@@ -237,15 +260,15 @@ def run(ctx):
             ctx.deviation(dict(stream='text', cls='unexpected-file-rename'), dict(source=m['source'], renames=m['renames']),
                           'rename of a variable announces file renames')
         if m['back_exc']:
-            ctx.deviation(dict(stream='text', exc=m['back_exc']['exc'], site=m['back_exc']['site'], in_c03_fragment=infrag),
+            ctx.deviation(dict(stream='text', exc=m['back_exc']['exc'], site=m['back_exc']['site'], reason=reason(m['idx'] if 'idx' in m else i)),
                           dict(source=m['source'], occurrence=m['occurrence'], error=m['back_exc']), 'renaming back raised')
         elif m['back'] is not None and m['back'] != m['source']:
-            ctx.deviation(dict(stream='text', cls='roundtrip', in_c03_fragment=infrag, refs_are_variable=refs_ok),
+            ctx.deviation(dict(stream='text', cls='roundtrip', reason=reason(m['idx']), refs_are_variable=refs_ok),
                           dict(source=m['source'], occurrence=m['occurrence'], new_code=m['new'], back=m['back']),
                           'renaming to a fresh name and back does not restore the original text')
         if not m['trace_equal']:
             stats['trace_changed'] += 1
-            ctx.deviation(dict(stream='run', cls='behaviour-changed', in_c03_fragment=infrag, refs_are_variable=refs_ok),
+            ctx.deviation(dict(stream='run', cls='behaviour-changed', reason=reason(m['idx']), refs_are_variable=refs_ok),
                           dict(source=m['source'], occurrence=m['occurrence'], new_code=m['new']),
                           'the renamed program does not behave like the original')
     ctx.stat('programs', stats)
